@@ -116,13 +116,6 @@ func newCompressFilter(cfg *config) Filter {
 }
 
 func (f *compressFilter) Do(cmd string, req *simpleRequest) FilterStatus {
-	// skip if compression config is null
-	if f.cfg == nil ||
-		f.cfg.GetRedisOption() == nil ||
-		f.cfg.GetRedisOption().GetCompression() == nil {
-		return Continue
-	}
-
 	// The request is resent after a redirection, its values have already been
 	// compressed and the decompression hook has already been registered.
 	if req.cpsDone {
@@ -131,10 +124,20 @@ func (f *compressFilter) Do(cmd string, req *simpleRequest) FilterStatus {
 	req.cpsDone = true
 
 	// register decompression hook if needed.
+	// NOTE: The values which were written while the compression was enabled
+	// must be decompressed whatever the current config is, also when it has
+	// no compression section any more.
 	if _, ok := wkSkipCheckCmdsInDecps[cmd]; !ok {
 		req.RegisterHook(func(request *simpleRequest) {
 			f.Decompress(request.resp)
 		})
+	}
+
+	// skip if compression config is null
+	if f.cfg == nil ||
+		f.cfg.GetRedisOption() == nil ||
+		f.cfg.GetRedisOption().GetCompression() == nil {
+		return Continue
 	}
 
 	// skip if the compression is not enabled.
